@@ -264,11 +264,21 @@ var registry = []propertySpec{
 				Bounds: "28 concrete operand pairs in the spellings outside the symbolic alphabet (exponents, hex, underscores, inf, nan, long mantissas, non-ASCII) and one symbolic byte per side, written as the query \"l\" op \"r\" through tokenizer, parser and engine"},
 			{Name: "VerifC16_Functions", Pkg: "q", Quick: tierSpec{Cases: 22 * 5}, Thorough: tierSpec{Cases: 22 * 5}, Sched: -1,
 				Bounds: "22 queries (accessor chains over Document/Individual/Family/Name, First/Last with a symbolic digit 0..9, Length, Only with a symbolic literal, Combine, NodesWithTagPath, objects, variables) on family documents of 0..4 people whose name bytes are symbolic; JSON of the result against JSON of the value computed with the Go API"},
-			{Name: "VerifC16_Algebra", Pkg: "q", Quick: tierSpec{Cases: 7 * 5}, Thorough: tierSpec{Cases: 7 * 5}, Sched: -1, MapOrder: true,
-				Bounds: "7 list expressions x 6 following stages x 0..4 people: variable inlining, repeatability (under 4 map iteration orders), Combine(E,E) doubling, Only(p)/Only(not p) partition and order"},
+			{Name: "VerifC16_Algebra", Pkg: "q", Quick: tierSpec{Cases: 7 * 4}, Thorough: tierSpec{Cases: 7 * 4}, Sched: -1, MapOrder: true,
+				Bounds: "7 list expressions x 5 following stages x 0..3 people: variable inlining, repeatability (under 4 map iteration orders), Combine(E,E) doubling, Only(p)/Only(not p) partition and order"},
 		},
 		Assumptions: []string{"operands are ASCII; exponent / hex / inf / nan spellings are checked on the concrete pairs only", "an operand that is a number only after trimming blanks is outside the stated order (either reading of the statement is accepted); the laws still apply to it"},
 		Outside:     "accessors with arguments, Date/Place accessors with symbolic dates (floats in JSON), MergeDocumentsAndIndividuals (C10), queries deeper than 5 stages",
+	},
+	{
+		ID:    "C10",
+		Files: map[string][]string{"": {"zz_verif_lib.go", "zz_verif_c10.go"}},
+		Harnesses: []harnessSpec{
+			{Name: "VerifC10_Merge", Quick: tierSpec{Cases: 48}, Thorough: tierSpec{Cases: 48}, Sched: -1,
+				Bounds: "a 3-person family merged with 8 variants of a second document (identical copy, renumbered copy, edited renumbered copy with a dropped and an added person and a changed fact, disjoint family, disjoint family with clashing pointers, empty document, copies in which one byte of a given name is symbolic) x default / strict (0.99) / lenient (0.1) thresholds x both argument orders; the real Compare pipeline runs under the deterministic scheduler"},
+		},
+		Assumptions: []string{"every person carries a unique NOTE so that it can be followed through the merge; EqualityMergeFunction for the other records"},
+		Outside:     "documents with more than 4 people per side or several families per person, other merge functions, the query function (C15/C16 harnesses call it on 2 documents), schedules other than the deterministic one (C11)",
 	},
 	{
 		ID:    "C04",
